@@ -4,18 +4,22 @@ maintenance passes non-destructive, gate off => graph untouched.
 Engine E1 (explicit-state BFS over operation histories) on the REAL functions of clematis/engine/gel.py.
 
 Legs
-  B  history BFS: for every validator-accepted config with <=2 deviations from the defaults and every
-     initial graph {absent, G4 (5 nodes / 4 edges, weights inside the config's clamp interval)}, all
-     histories up to depth d over the operation alphabet
+  B  history BFS: for every validator-accepted config with <=2 deviations from the defaults (9 dimensions,
+     see DIMS) and every initial graph {absent, G4 (5 nodes / 4 edges, weights inside the config's clamp
+     interval)}, all histories up to depth d over the operation alphabet
          observe(L) for L in a curated list alphabet (ties, NaN, threshold boundary, duplicate ids),
-         tick(dt) dt in {0,1,5}, merge pass, split pass, promote pass
+         tick(dt) dt in {0,1,5}, merge pass, split pass, promote pass (strung together as core.py does)
      with canonical-state hashing (a state = canonical JSON of state.graph + the set of promotion-written
      edges).  At every observe transition ALL distinct permutations of the item list are executed.  At
      every new state every operation is also executed with graph.enabled=false (gate off => untouched).
+     quick: d=3, 5 lists.  thorough: d=4 (configs with <=1 deviation: 9 lists incl. two with 24 orders;
+     default config additionally d=5).
   A  single-step exhaustive observe: every multiset of <=3 (thorough <=4) items over ids {a,b,c} x
      scores {NaN,.1,.2,.5,.9}, in every distinct order, from {absent, G4}, for every config whose
-     deviations are all observe-relevant.
-  D  (cheap) one orchestrator turn with graph.enabled=false over a pre-seeded state.graph.
+     deviations are all observe-relevant (2-deviation configs: one item fewer).
+  C  closed gate x 4 ctx shapes (dict / ns.cfg / ns.config / both) x 4 stores, incl. "graph key absent".
+  D  (cheap) one real orchestrator turn with graph.enabled=false (sub-gates on) over a pre-seeded
+     state['graph'], and the same turn with the gate on (anti-vacuity).
 
 Oracle (derived from the property statement + docs/m11/overview.md, not from the code): see the
 check_* functions; each transition is checked for *preserving* the invariant (edges in bounds before
@@ -25,7 +29,6 @@ from __future__ import annotations
 
 import itertools
 import json
-import math
 import os
 import types
 
